@@ -236,7 +236,11 @@ func genKs(e *emitter, r *rng.R, n int, tier string) {
 			case c >= 12:
 				parts = append(parts, fmt.Sprintf("s%d:%s", rr.Intn(l), hexs(rr.Pick(sysq))))
 			case c < 5:
-				parts = append(parts, fmt.Sprintf("u%d:%s", rr.Intn(l), hexs(rr.Pick(names))))
+				nm := rr.Pick(names)
+				if rr.Intn(5) == 0 { // the statement terminator is not part of the name
+					nm += rr.Pick([]string{";", " ;", "; ", " ; "})
+				}
+				parts = append(parts, fmt.Sprintf("u%d:%s", rr.Intn(l), hexs(nm)))
 			case c < 9:
 				parts = append(parts, fmt.Sprintf("q%d", rr.Intn(l)))
 			case c < 11:
